@@ -222,7 +222,8 @@ def validART2A (alpha : α) (dim? : Option Nat) (X : Mat α) : Bool :=
     | none => art2AlphaOk alpha (width X)
     | some d => width X == d)
 
-/-- `validate_data` of BaseART / FuzzyART / ART1 as the state transformer it is:
+/-- `validate_data` of BaseART / FuzzyART / ART1 (and ART2A, see
+`runValidateART2A`) as the state transformer it is:
 the last statement, `check_dimensions`, writes `dim_` when it is absent and
 asserts nothing afterwards, so `dim_` is written only by an accepting call. -/
 def runValidate (valid : Option Nat → Mat α → Bool) (s : DimState) (X : Mat α) : DimState × Bool :=
@@ -232,14 +233,16 @@ def runValidate (valid : Option Nat → Mat α → Bool) (s : DimState) (X : Mat
       | some _ => s, true)
   else (s, false)
 
-/-- `ART2A`'s `validate_data` as written: `check_dimensions` assigns
-`self.dim_ = X.shape[1]` and only THEN asserts the `alpha` bound, so a
-rejecting first call leaves `dim_` behind (finding C18-a; BayesianART's
-`cov_init` shape test has the same order, finding C18-b). -/
+/-- `ART2A`'s `validate_data` as written: the range test, then
+`ART2A.check_dimensions`, which on the call that first sees a width asserts
+`alpha <= 1/sqrt(X.shape[1])` and only then assigns `self.dim_ = X.shape[1]`
+(BayesianART's `cov_init` shape test has the same order).  Until /repo commit
+9901844 the assignment came first and a rejecting first call left `dim_`
+behind (findings C18-a, C18-b, fixed). -/
 def runValidateART2A (alpha : α) (s : DimState) (X : Mat α) : DimState × Bool :=
   if inUnit X then
     match s.dim with
-    | none => ({ dim := some (width X) }, art2AlphaOk alpha (width X))
+    | none => if art2AlphaOk alpha (width X) then ({ dim := some (width X) }, true) else (s, false)
     | some d => (s, width X == d)
   else (s, false)
 
